@@ -17,13 +17,13 @@ import (
 
 	"github.com/taskctl/taskctl/internal/config"
 	"github.com/taskctl/taskctl/internal/vh/common"
-	"github.com/taskctl/taskctl/vrt"
 	"github.com/taskctl/taskctl/pkg/scheduler"
 	"github.com/taskctl/taskctl/pkg/task"
+	"github.com/taskctl/taskctl/vrt"
 )
 
 type Cfg struct {
-	Kinds []string   `json:"kinds"` // per stage: none, env, vars, dir, all
+	Kinds []string   `json:"kinds"` // per stage: none, env, vars, dir, all, blank
 	Deps  [][]string `json:"deps"`
 	Index int64      `json:"index"`
 }
@@ -117,6 +117,10 @@ func expected(c *Cfg) []string {
 		if k == "dir" || k == "all" {
 			dir = "/dir-" + stageNames[i]
 		}
+		if k == "blank" { // an override may blank a setting of the task: the empty string is a value
+			env["K"], env["T"] = "", ""
+			vars["K"], vars["tv"] = "", ""
+		}
 		out = append(out, snap(env, vars, dir))
 	}
 	out = append(out, "direct:"+snap(taskEnv, taskVars, "/taskdir"))
@@ -139,6 +143,10 @@ func body(c *Cfg) func() {
 			}
 			if k == "dir" || k == "all" {
 				s.Dir = "/dir-" + stageNames[i]
+			}
+			if k == "blank" {
+				s.Env = map[string]string{"K": "", "T": ""}
+				s.Variables = map[string]string{"K": "", "tv": ""}
 			}
 			if k == "all" {
 				for _, x := range []string{"1", "2", "3", "4", "5"} {
@@ -272,7 +280,7 @@ func main() {
 		return
 	}
 	bound := 2
-	kindsAll := []string{"none", "env", "vars", "dir", "all"}
+	kindsAll := []string{"none", "env", "vars", "dir", "all", "blank"}
 	shapes := map[int][][][]string{
 		2: {{{}, {}}, {{}, {"s1"}}, {{"s2"}, {}}},
 		3: {{{}, {}, {}}, {{}, {"s1"}, {"s2"}}, {{}, {"s1"}, {"s1"}}, {{}, {}, {"s1", "s2"}}, {{}, {"s1"}, {}}, {{"s3"}, {"s3"}, {}}},
